@@ -15,8 +15,8 @@ derived Serialize prints the string): one encoding using another conversion prin
 Noted, not armed: the inline row-selection builders in build_record_batch accept fewer variants than the functions (no Utf8 parsing); a u64 above i64::MAX is kept as a string and becomes null in an Int64 Arrow column.
 Does NOT decide numeric equality of decoded cells, batch-size independence, or byte-level agreement of the three encodings.
 """
-FLOOR = 10
-REQUIRED = ["C20.a", "C20.b", "C20.c", "C20.d", "C20.e", "C20.f", "C20.g", "C20/C03.e1", "C20/C03.e2"]
+FLOOR = 11
+REQUIRED = ["C20.a", "C20.b", "C20.c", "C20.d", "C20.e", "C20.f", "C20.g", "C20.h", "C20/C03.e1", "C20/C03.e2"]
 
 
 def run(ctx):
@@ -137,6 +137,30 @@ def run(ctx):
             bad.append(("inline-typed-builder", "build_record_batch appends typed cells inline (%s) next to the shared builders" % inline, sp(b, i)))
         return bad
     ctx.run("C20.g", "K11 SIB", "shared::response::arrow::build_record_batch", "whole-batch and row-selection encoding share the cell builders", g_)
+
+    def h_(inst):
+        # the HTTP status is taken from the rendered body: a whole-document parse must be given the whole body
+        b = F.fn("http::dispatcher::extract_http_status_from_response")
+        parses = [c_ for c_ in b.calls if not c_.cleanup and re.search(r"(sonic_rs|serde_json)::(from_str|from_slice)$", norm_path(c_.nname))]
+        inst.sites = [sp(b, c_.bb) + " " + c_.nname for c_ in parses]
+        if not parses:
+            raise AnchorMissing("JSON parse of the body in extract_http_status_from_response")
+        bad = []
+        for c_ in parses:
+            src = c_.args[0]
+            cut = False
+            for _ in range(4):
+                L = b.origins(src)
+                if any(l[0] == "call" and re.search(r"index::Index.*::index$|slice::index::index$|str::get$|slice::get$|split_at$", norm_path(l[1])) for l in L):
+                    cut = True
+                nxt = [l for l in L if l[0] == "call" and re.search(r"from_utf8(_unchecked)?$", norm_path(l[1]))]
+                if not nxt:
+                    break
+                src = b.call_at(nxt[0][2]).args[0]
+            if cut:
+                bad.append(("status-from-truncated-document", "extract_http_status_from_response parses a prefix of the body as a complete JSON document: for an error body longer than the prefix the parse fails and the request is answered 200 while the body says 400 / 403", sp(b, c_.bb)))
+        return bad
+    ctx.run("C20.h", "K7 PROV", "http::dispatcher::extract_http_status_from_response", "the HTTP status agrees with the status in the body, whatever its length", h_)
 
     ctx.note("a u64 above i64::MAX is kept as Utf8 and becomes null in an Arrow Int64 column while JSON prints the number (value level, not armed)")
 
